@@ -4,6 +4,7 @@ import (
 	"fmt"
 	"go/ast"
 	"go/constant"
+	"go/parser"
 	"go/token"
 	"go/types"
 	"strings"
@@ -24,6 +25,7 @@ func init() {
 	ruleText["R03.2"] = "in a case of a switch over reflect kinds, go/constant accessors are those of the case's kinds: Int64Val (Int*), Uint64Val (Uint*), Float32Val (Float32, Complex64), Float64Val (Float64, Complex128), BoolVal (Bool), StringVal (String); a complex case reads Real and Imag"
 	ruleText["R03.3"] = "the integer width table has an entry for every integer kind equal to 8*Sizeof(kind) of the analysed configuration"
 	ruleText["R03.4"] = "in the function deciding whether a constant is representable, the case of signed kinds bounds the value with width-1 magnitude bits and cannot reach the full-width comparison used for unsigned kinds"
+	ruleText["R03.7"] = "no assignment in package interp has the form *p = v with p of type *itype: a node's type is changed by replacing the pointer, never by overwriting the shared type object"
 	ruleText["R03.6"] = "in the AST builder, the value of an INT, FLOAT, IMAG or STRING literal is constant.MakeFromLiteral(lit.Value, lit.Kind, 0) on every path (go/constant's parser defines the exact value of a literal)"
 	ruleText["R03.5"] = "every function assigning scope.iota does so in an if/else that resets it to 0 when the spec is the last child of its declaration and increments it otherwise; all such sites use the same condition"
 }
@@ -44,6 +46,7 @@ func runC03(c *Config, r *Report) {
 	c03R4(ic, r)
 	c03R5(ic, r)
 	c03R6(ic, r)
+	c03R7(ic, r)
 	if c.Tier == "thorough" {
 		ic386, err := loadInterp(c, false, "GOARCH=386")
 		if err != nil {
@@ -90,6 +93,33 @@ func c03R6(ic *IC, r *Report) {
 				if t == token.INT || t == token.FLOAT || t == token.IMAG || t == token.STRING {
 					exact = true
 				}
+			}
+			isChar := false
+			for _, t := range toks {
+				if t == token.CHAR {
+					isChar = true
+				}
+			}
+			if isChar && !exact {
+				// a rune literal is decoded by strconv.UnquoteChar (or by go/constant): going
+				// through a string (strconv.Unquote, then a []rune conversion) re-decodes the
+				// bytes as UTF-8, which turns '\xff' and '\377' into U+FFFD.
+				okDec, viaString := false, ""
+				for _, s := range cc.Body {
+					ast.Inspect(s, func(m ast.Node) bool {
+						if call, isCall := m.(*ast.CallExpr); isCall {
+							switch {
+							case isCallTo(ic.Info, call, "strconv.UnquoteChar"), isCallTo(ic.Info, call, "go/constant.MakeFromLiteral"):
+								okDec = true
+							case isCallTo(ic.Info, call, "strconv.Unquote"), isCallTo(ic.Info, call, "unicode/utf8.DecodeRuneInString"), isCallTo(ic.Info, call, "unicode/utf8.DecodeRune"):
+								viaString = types.ExprString(call.Fun)
+							}
+						}
+						return true
+					})
+				}
+				r.Check(okDec && viaString == "", "R03.6", "ast/literal:CHAR", ic.pos(cc.Pos()), "rune literals are decoded by strconv.UnquoteChar / go/constant",
+					"a CHAR literal is decoded through "+map[bool]string{true: viaString + " (a string, re-decoded as UTF-8)", false: "neither strconv.UnquoteChar nor constant.MakeFromLiteral"}[viaString != ""]+": literals with a byte escape of 0x80..0xFF ('\\xff', '\\377') evaluate to U+FFFD instead of 128..255")
 			}
 			if !exact {
 				continue
@@ -481,15 +511,56 @@ func c03R4(ic *IC, r *Report) {
 		return
 	}
 	name := funcName(fi.Decl)
-	usesWidth := func(n ast.Node) bool {
+	// locals holding the width (n := bitlen[t.Kind()]) or the width minus one (s := uint(bitlen[k] - 1))
+	fullAlias := map[types.Object]bool{}
+	minusAlias := map[types.Object]bool{}
+	var usesWidth func(n ast.Node) bool
+	usesWidth = func(n ast.Node) bool {
 		found := false
 		ast.Inspect(n, func(m ast.Node) bool {
-			if id, ok := m.(*ast.Ident); ok && ic.Info.Uses[id] == wt {
+			if id, ok := m.(*ast.Ident); ok && (ic.Info.Uses[id] == wt || fullAlias[ic.Info.Uses[id]]) {
 				found = true
 			}
 			return true
 		})
 		return found
+	}
+	hasMinusOne := func(n ast.Node) bool {
+		found := false
+		ast.Inspect(n, func(m ast.Node) bool {
+			if be, ok := m.(*ast.BinaryExpr); ok && be.Op == token.SUB && usesWidth(be.X) {
+				if tv, ok := ic.Info.Types[be.Y]; ok && tv.Value != nil && tv.Value.ExactString() == "1" {
+					found = true
+				}
+			}
+			if id, ok := m.(*ast.Ident); ok && minusAlias[ic.Info.Uses[id]] {
+				found = true
+			}
+			return true
+		})
+		return found
+	}
+	for round := 0; round < 2; round++ {
+		ast.Inspect(fi.Decl.Body, func(n ast.Node) bool {
+			if as, ok := n.(*ast.AssignStmt); ok && len(as.Lhs) == len(as.Rhs) {
+				for i, l := range as.Lhs {
+					id, ok := l.(*ast.Ident)
+					if !ok {
+						continue
+					}
+					o := ic.Info.ObjectOf(id)
+					if o == nil || !usesWidth(as.Rhs[i]) {
+						continue
+					}
+					if hasMinusOne(as.Rhs[i]) {
+						minusAlias[o] = true
+					} else {
+						fullAlias[o] = true
+					}
+				}
+			}
+			return true
+		})
 	}
 	var signedCase, unsignedCase *ast.CaseClause
 	ast.Inspect(fi.Decl.Body, func(n ast.Node) bool {
@@ -519,10 +590,20 @@ func c03R4(ic *IC, r *Report) {
 	}
 	// (1) the signed case bounds with width-1: an expression <width> - 1, or a strict < against the width
 	minusOne := false
+	var looseInSigned []string
 	for _, s := range signedCase.Body {
+		var stack []ast.Node
 		ast.Inspect(s, func(m ast.Node) bool {
+			if m == nil {
+				stack = stack[:len(stack)-1]
+				return true
+			}
+			stack = append(stack, m)
 			be, ok := m.(*ast.BinaryExpr)
 			if !ok {
+				if id, ok := m.(*ast.Ident); ok && minusAlias[ic.Info.Uses[id]] {
+					minusOne = true
+				}
 				return true
 			}
 			if be.Op == token.SUB && usesWidth(be.X) {
@@ -530,12 +611,26 @@ func c03R4(ic *IC, r *Report) {
 					minusOne = true
 				}
 			}
-			if be.Op == token.LSS && usesWidth(be.Y) {
+			if be.Op == token.LSS && usesWidth(be.Y) && !hasMinusOne(be.Y) {
 				minusOne = true
+			}
+			// a non-strict comparison of a bit length against the full width, standing alone
+			if (be.Op == token.LEQ && usesWidth(be.Y) && !hasMinusOne(be.Y)) || (be.Op == token.GEQ && usesWidth(be.X) && !hasMinusOne(be.X)) {
+				conj := false
+				for _, anc := range stack[:len(stack)-1] {
+					if ab, ok := anc.(*ast.BinaryExpr); ok && ab.Op == token.LAND {
+						conj = true
+					}
+				}
+				if !conj {
+					looseInSigned = append(looseInSigned, types.ExprString(be)+" at "+ic.pos(be.Pos()))
+				}
 			}
 			return true
 		})
 	}
+	r.Check(len(looseInSigned) == 0, "R03.4", name+"/signed-no-full-width", ic.pos(signedCase.Pos()), "no branch of the signed case admits a full-width magnitude",
+		"in the case of signed kinds "+strings.Join(looseInSigned, ", ")+" admits constants whose magnitude needs all n bits: for a negative constant that is every value down to -(2^n - 1), e.g. int8(-129) is accepted and wraps to 127")
 	r.Check(minusOne, "R03.4", name+"/signed-bound", ic.pos(signedCase.Pos()), "signed kinds are bounded with width-1 magnitude bits",
 		"the case of signed kinds in "+name+" never uses width-1 (no '<width> - 1' and no strict comparison against the width): a signed n-bit kind accepts constants up to 2^n-1, e.g. var x int8 = 200")
 	// (2) the full-width comparison must be unreachable from the signed case
@@ -665,4 +760,137 @@ func c03R5(ic *IC, r *Report) {
 		}
 	}
 	r.Check(same, "R03.5", "iota/sibling-agreement", "", "all sites use the condition "+first, fmt.Sprintf("the sites advancing scope.iota disagree on the reset condition: %v: the two passes compute different iota values for the same const block", conds))
+}
+
+// c03R7: type objects are shared. The type of a named constant, and the single universe type
+// of iota, are referenced by every use of the constant, so promoting an untyped operand must
+// replace the node's type pointer (n.typ = typ), never overwrite the pointed-to object:
+// *n.typ = *typ changes the kind of every other use, and later expressions compute in the
+// wrong kind. The rule forbids whole-object stores through an *itype anywhere in the package.
+func wholeObjectStores(info *types.Info, root ast.Node, typeName string) []*ast.AssignStmt {
+	var out []*ast.AssignStmt
+	ast.Inspect(root, func(n ast.Node) bool {
+		as, ok := n.(*ast.AssignStmt)
+		if !ok {
+			return true
+		}
+		for _, l := range as.Lhs {
+			st, ok := unparen(l).(*ast.StarExpr)
+			if !ok {
+				continue
+			}
+			if nt, ok := info.TypeOf(st).(*types.Named); ok && nt.Obj().Name() == typeName {
+				out = append(out, as)
+			}
+		}
+		return true
+	})
+	return out
+}
+
+// c03InPlaceOK: whole-object stores accepted today, keyed by function.
+var c03InPlaceOK = map[string]string{
+	"itype.defaultType": "*typ = *t in the default case is reached only while typ still aliases t (typ is re-pointed only to typed universe types, for which the enclosing 'if typ.untyped' is false): a self-copy",
+}
+
+// freshTargetBefore reports whether the statement preceding as in its block assigns a fresh
+// &itype{} (or new(itype)) to the pointer that as stores through.
+func freshTargetBefore(ic *IC, fd *ast.FuncDecl, as *ast.AssignStmt) bool {
+	st, ok := unparen(as.Lhs[0]).(*ast.StarExpr)
+	if !ok {
+		return false
+	}
+	target := types.ExprString(st.X)
+	path := enclosingPath(fd.Body, as)
+	for i := len(path) - 2; i >= 0; i-- {
+		var list []ast.Stmt
+		switch b := path[i].(type) {
+		case *ast.BlockStmt:
+			list = b.List
+		case *ast.CaseClause:
+			list = b.Body
+		default:
+			continue
+		}
+		for j, s := range list {
+			if s == ast.Stmt(as) && j > 0 {
+				if prev, ok := list[j-1].(*ast.AssignStmt); ok && len(prev.Lhs) == 1 && len(prev.Rhs) == 1 && types.ExprString(prev.Lhs[0]) == target {
+					switch x := unparen(prev.Rhs[0]).(type) {
+					case *ast.UnaryExpr:
+						_, isLit := x.X.(*ast.CompositeLit)
+						return x.Op == token.AND && isLit
+					case *ast.CallExpr:
+						if id, ok := x.Fun.(*ast.Ident); ok && id.Name == "new" {
+							return true
+						}
+					}
+				}
+			}
+		}
+		return false
+	}
+	return false
+}
+
+const c03Control = `package ctl
+type itype struct{ cat int; untyped bool }
+type node struct{ typ *itype }
+func promote(n *node, typ *itype) {
+	*n.typ = *typ
+	n.typ = typ
+	n.typ.untyped = false
+	var p *int
+	*p = 3
+}
+`
+
+func c03R7(ic *IC, r *Report) {
+	fset := token.NewFileSet()
+	f, err := parser.ParseFile(fset, "control.go", c03Control, 0)
+	if err != nil {
+		r.Errorf("R03.7 positive control does not parse: %v", err)
+		return
+	}
+	info := &types.Info{Types: map[ast.Expr]types.TypeAndValue{}, Defs: map[*ast.Ident]types.Object{}, Uses: map[*ast.Ident]types.Object{}, Selections: map[*ast.SelectorExpr]*types.Selection{}}
+	if _, err := (&types.Config{}).Check("ctl", fset, []*ast.File{f}, info); err != nil {
+		r.Errorf("R03.7 positive control does not type-check: %v", err)
+		return
+	}
+	if n := len(wholeObjectStores(info, f, "itype")); n != 1 {
+		r.Errorf("R03.7 positive control: matcher found %d whole-object stores in the control snippet, want 1", n)
+		return
+	}
+	if ic.Pk.Types.Scope().Lookup("itype") == nil {
+		r.Errorf("anchor not resolved: type itype")
+		return
+	}
+	nFiles := 0
+	bad := 0
+	for _, file := range ic.Pk.Syntax {
+		nFiles++
+		for _, as := range wholeObjectStores(ic.Info, file, "itype") {
+			owner := ""
+			var ofd *ast.FuncDecl
+			for _, d := range file.Decls {
+				if fd, ok := d.(*ast.FuncDecl); ok && fd.Pos() <= as.Pos() && as.End() <= fd.End() {
+					owner = funcName(fd)
+					ofd = fd
+				}
+			}
+			// a copy into an object allocated by the statement just before (x = &itype{}; *x = *y)
+			if ofd != nil && freshTargetBefore(ic, ofd, as) {
+				r.Pass("R03.7", owner+"/copy-into-fresh-itype", ic.pos(as.Pos()), "the overwritten object was allocated by the preceding statement")
+				continue
+			}
+			if why, ok := c03InPlaceOK[owner]; ok {
+				r.Pass("R03.7", owner+"/itype-overwritten-in-place", ic.pos(as.Pos()), "frozen exception: "+why)
+				continue
+			}
+			bad++
+			r.Fail("R03.7", owner+"/itype-overwritten-in-place", ic.pos(as.Pos()), "the type object is overwritten through its pointer ("+types.ExprString(as.Lhs[0])+" = ...): the object is shared by every use of a named constant (and by every iota), so after one mixed-kind use such as c * 1.5 the later uses of c compute in the wrong kind (c / 2 becomes a float division, c % 2 is rejected)")
+		}
+	}
+	if bad == 0 {
+		r.Pass("R03.7", "itype/never-overwritten-in-place", "", fmt.Sprintf("%d files of package interp, no store of the form *p = v with p of type *itype (positive control matched)", nFiles))
+	}
 }
